@@ -62,6 +62,31 @@ def run(repo, rep):
                                                                                                 "Shape4D(op_shape4D.batch,op_shape4D.width,op_shape4D.height,op_shape4D.depth)")
     rep.check(ok, "C02-j", "ethosu/vela/high_level_command_to_npu_op.py:create_feature_map", "the OFM of a Transpose is strided by the shape [N, W, H, C] (op_shape4D holds the IFM shape)",
               f"strides come from `{detail}`: with the un-transposed shape the swapped strides address up to W*W*C bytes of an H*W*C tensor")
+    # (k) a DMA copy between feature maps copies the source's storage: both ends stay in linear format, and the scale stream is
+    # addressed in the region of its own tensor
+    rep.clause("C02-k", "tensors touched by an NPU memory copy (Op.Memcpy) are kept out of the brick format (the copy length is taken from the source's strides); the scale stream's region is that of the scale tensor")
+    gu = repo.mod("graph_optimiser_util")
+    am = gu.func("_avoid_nhcwb16_for_memory_only")
+    gens = [g for g in ast.walk(am) if isinstance(g, ast.GeneratorExp)]
+    ok = False
+    detail = "test not recognised"
+    if gens:
+        t = gens[0].elt
+        detail = str(norm(t))
+        if norm(t) == "op.type == Op.Memcpy":
+            ok = True
+        elif isinstance(t, ast.Compare) and len(t.ops) == 1 and isinstance(t.ops[0], ast.In) and norm(t.left) == "op.type":
+            src = t.comparators[0]
+            if isinstance(src, ast.Name) and src.id in gu.assigns:
+                src = gu.assigns[src.id]
+            ok = "Op.Memcpy" in str(norm(src))
+            detail += f" with {str(norm(src))[:80]}"
+    rep.check(ok, "C02-k", "ethosu/vela/graph_optimiser_util.py:_avoid_nhcwb16_for_memory_only", "a tensor produced or consumed by Op.Memcpy is excluded from NHCWB16", detail +
+              ": Op.Memcpy is not recognised, both ends of the copy may get the brick format and the DMA length (from the source's rounded strides) exceeds the destination tensor")
+    cw = hn.func("create_weights")
+    sr = [s_ for s_ in ast.walk(cw) if isinstance(s_, ast.Assign) and norm(s_.targets[0]) == "scale_region"]
+    rep.check(len(sr) == 1 and "get_region(scale_tensor.mem_type, arch)" in str(norm(sr[0].value)), "C02-k", "ethosu/vela/high_level_command_to_npu_op.py:create_weights",
+              "scale_region = get_region(scale_tensor.mem_type, arch)", (str(norm(sr[0].value)) if sr else "") + ": SCALE_BASE stays an offset in the scale tensor's region while SCALE_REGION names another one")
     rep.clause("C02-i", "byte offsets computed by graph rewrites use each tensor dimension in its layout position: 4-element shape unpackings name N,H,W,C (feature maps) / H,W,I,O (weights) in order")
     rule_shape_unpack(repo, rep)
 
